@@ -176,6 +176,19 @@ CLAIMED = {
    note="Trusted: as C16 plus the assumed contracts of jnp.argsort, jax.lax.top_k, jnp.unravel_index; the per-candidate residual is "
         "an uninterpreted function of the candidate row. Reshuffles keep the active set by the assumed contract of "
         "jax.random.choice (zero-probability rows last) — not re-proved."),
+ "C15": dict(
+   engine="pyvc",
+   text="obs_batch (n, batch size, index symbolic): one index vector m with input, value and every observed parameter of batch "
+        "row r taken from table row m[r] in [0, n) (index-range invariant preserved by reshuffles), tables untouched; the "
+        "constructor makes indices = arange(n), 2-D tables, rejects mismatched row counts; DataGeneratorParameter.generate_data: "
+        "user table has priority in both documented shapes ((n,) reshaped, (n,1) as is), other shapes raise ValueError, other keys "
+        "are sampled once from their own range; the multi-network loader returns one aligned batch per network and an empty "
+        "entry for networks without observations.",
+   technique="contract-based deductive verification: source-level VC generation (ast symbolic executor over the loaders' source, "
+             "constructors included) discharged by z3",
+   design_ref="DESIGN.md §5 C15",
+   note="Trusted: Python-subset semantics and jnp / tree_util models of vf/pyvc.py; assumed contracts of jax.random.choice / split / "
+        "uniform; iteration rule; z3. Column counts and key sets are concrete (1..2)."),
 }
 PENDING_REASON = "check not built yet (framework under construction); will be claimed once its contracts verify"
 NA = {}
